@@ -27,19 +27,19 @@ Lemma check_fixed g evs k r :
   In (k, r) (live_rows (s_c (run g fixed_code evs))) -> check_ok g (r_v r) = true.
 Proof. apply check_safe. apply forallb_forall. intros; apply ev_safe_fixed. Qed.
 
-Lemma unique_fixed_code g evs : unique_ok (s_c (run g fixed_code evs)).
+Lemma unique_fixed_code g evs : unique_ok g (s_c (run g fixed_code evs)).
 Proof. apply unique_fixed. reflexivity. Qed.
 
 (* premises of the partial statements are satisfiable on histories that do change v and s *)
 Example not_null_safe_premise :
-  let g := mkCfg false true 3 false in
+  let g := mkCfg false true 3 false false in
   let evs := [(0, ins1 1 10); (0, AAuto [SUpd (WId 1) true (VInt 20)]); (0, AAuto [SUpd WAll false VNull]);
               (0, AAuto [SIns (MDoUpdate true (VInt 7)) [(Some (VInt 1), VInt 3, VNull)]])] in
   forallb (ev_safe g old_code true false) evs = true /\
   live_rows (s_c (run g old_code evs)) = [(1%Z, mkRow (VInt 7) VNull)].
 Proof. vm_compute. split; reflexivity. Qed.
 Example check_safe_premise :
-  let g := mkCfg false false 3 true in
+  let g := mkCfg false false 3 true false in
   let evs := [(0, ins1 1 10); (0, AAuto [SUpd (WId 1) true (VInt 20)]);
               (0, AAuto [SIns (MDoUpdate true (VInt 7)) [(Some (VInt 1), VInt 3, VNull)]]);
               (0, AAuto [SUpd (WId 1) true (VInt (-1))])] in
